@@ -4,6 +4,7 @@
 package simnet
 
 import (
+	"syscall"
 	"context"
 	"errors"
 	"io"
@@ -118,6 +119,7 @@ type half struct {
 	inflight []byte
 	fin      bool // FIN queued behind inflight
 	rst      bool // RST queued (overtakes inflight)
+	rstAfter bool // RST that travels right behind the data in flight and arrives with its last byte
 	readable []byte
 	eof      bool
 	reset    bool
@@ -238,7 +240,7 @@ func (e *Endpoint) Read(b []byte) (int, error) {
 		}
 		if in.reset {
 			p.mu.Unlock()
-			return 0, e.opErr("read", errors.New("connection reset by peer"))
+			return 0, e.opErr("read", os.NewSyscallError("read", syscall.ECONNRESET))
 		}
 		if in.eof {
 			p.mu.Unlock()
@@ -271,7 +273,12 @@ func (e *Endpoint) Write(b []byte) (int, error) {
 		}
 		if out.fin || out.rst {
 			p.mu.Unlock()
-			return written, e.opErr("write", errors.New("broken pipe"))
+			return written, e.opErr("write", os.NewSyscallError("write", syscall.EPIPE))
+		}
+		if e.in().reset {
+			// the peer's RST has arrived: like a socket, every further write fails
+			p.mu.Unlock()
+			return written, e.opErr("write", os.NewSyscallError("write", syscall.ECONNRESET))
 		}
 		if e.wdlHit || (!e.wdl.IsZero() && !time.Now().Before(e.wdl)) {
 			p.mu.Unlock()
@@ -375,6 +382,11 @@ func (p *pipe) deliver(h *half) {
 		h.readable = append(h.readable, h.inflight[:k]...)
 		h.inflight = h.inflight[k:]
 		h.delivered += k
+		if len(h.inflight) == 0 && h.rstAfter {
+			// the reader finds the data and, behind it, the reset
+			h.rstAfter = false
+			h.reset = true
+		}
 	} else if h.fin {
 		h.eof = true
 		h.fin = false
@@ -446,6 +458,29 @@ func (e *Endpoint) Reset() {
 	e.closed = true
 	out := e.out()
 	out.rst = true
+	out.fin = false
+	e.in().readerGone = true
+	wake(e.in())
+	if !p.s.Draining() {
+		e.armLocked(out)
+	}
+	p.mu.Unlock()
+}
+
+// ResetAfterData aborts the connection like Reset, except that what has been written still
+// arrives: the RST reaches the peer together with the last byte (a server that answers and then
+// drops the connection hard). The peer can read the data; everything it does afterwards meets
+// the reset.
+func (e *Endpoint) ResetAfterData() {
+	p := e.p
+	p.mu.Lock()
+	e.closed = true
+	out := e.out()
+	if len(out.inflight) == 0 {
+		out.rst = true
+	} else {
+		out.rstAfter = true
+	}
 	out.fin = false
 	e.in().readerGone = true
 	wake(e.in())
@@ -560,6 +595,13 @@ func (e *Endpoint) SetReadDeadline(t time.Time) error {
 	return nil
 }
 
+// Undelivered reports how many bytes written by this end are still in flight.
+func (e *Endpoint) Undelivered() int {
+	e.p.mu.Lock()
+	defer e.p.mu.Unlock()
+	return len(e.out().inflight)
+}
+
 // Stats for oracles.
 func (e *Endpoint) BytesWrittenByPeer() int { return e.in().written }
 
@@ -670,7 +712,7 @@ func (d *Dialer) DialEndpoint(network, address string) (*Endpoint, error) {
 				s.Remove(toKey)
 				finish()
 			case DialRefused:
-				resErr = &net.OpError{Op: "dial", Net: network, Addr: simAddr{address}, Err: errors.New("connect: connection refused")}
+				resErr = &net.OpError{Op: "dial", Net: network, Addr: simAddr{address}, Err: os.NewSyscallError("connect", syscall.ECONNREFUSED)}
 				s.Remove(toKey)
 				finish()
 			case DialNoSuchHost:
